@@ -617,6 +617,31 @@ def rule_r8(repo, run):
         run.check(R, "ast.FunctionNode.__init__:splicer[%s]" % key, whole or (kept is not None and key in kept),
                   "%s reads node.splicer[%r] but FunctionNode.__init__ only keeps %s of the declaration's splicers: the user's "
                   "block is silently replaced by the generated default" % (who, key, sorted(kept or [])), am.loc(fi))
+    # two blocks of one emitter function have two names: with one name the reader keeps one text for both, and a user's
+    # replacement for the block lands in both places
+    nd = 0
+    for mn in ("wrapc", "wrapf", "wrapp", "wrapl"):
+        m = repo.module(mn)
+        for q, fn in sorted(m.functions().items()):
+            seen = {}
+            for c in ast.walk(fn):
+                if isinstance(c, ast.Call) and (pyflow.call_name(c) or "") == "self._create_splicer" and c.args \
+                        and pyflow.const_str(c.args[0]) is not None:
+                    seen.setdefault(pyflow.const_str(c.args[0]), []).append(c)
+            for name_, calls in sorted(seen.items()):
+                nd += 1
+                if len(calls) == 1:
+                    run.ok(R, "%s.%s:block[%s]" % (mn, q, name_))
+                    continue
+                # the same name is fine on mutually exclusive paths (if / else arms of one test)
+                atoms = [pyflow.path_atoms(c, stop=fn, seg=m.seg) for c in calls]
+                exclusive = all(any((t, not p) in atoms[j] for t, p in atoms[i]) for i in range(len(calls))
+                                for j in range(len(calls)) if i != j)
+                run.check(R, "%s.%s:block[%s]" % (mn, q, name_), exclusive,
+                          "%d blocks of %s are created under the one name %r (lines %s): the splicer reader keeps a single text "
+                          "per name, so the user's code for the block is put into every one of them - bodies of different "
+                          "functions" % (len(calls), q, name_, [c.lineno for c in calls]), m.loc(calls[1]))
+    run.floor(R, "named blocks with a constant name", nd, 30)
     # _update_splicer_top(name) == _pop_splicer(); _push_splicer(name)
     um = repo.module("util")
     up = um.func("WrapperMixin._update_splicer_top")
